@@ -520,7 +520,7 @@ def core(repo, sink, only_ops=None):
     if isinstance(iset, Unknown) or not isinstance(iset, list):
         raise AnalysisError("INSTRUCTION_SET does not fold to a constant list (%r)" % (iset,))
     for i, h in enumerate(iset):
-        if not (isinstance(h, Ref) and h.kind == "func"):
+        if i in dalvik.OPCODES and i <= 0xE2 and not (isinstance(h, Ref) and h.kind == "func"):
             raise AnalysisError("INSTRUCTION_SET[0x%02x] is not a function reference: %r" % (i, h))
     table = folder.global_(dex, "DALVIK_OPCODES_FORMAT")
     if isinstance(table, Unknown) or not isinstance(table, dict):
@@ -535,8 +535,8 @@ def core(repo, sink, only_ops=None):
     users = {}   # shared component -> [Func, signatures through it, failing, which]
 
     for op in sorted(dalvik.OPCODES):
-        if op > 0xE2 and op >= len(iset):
-            continue
+        if op > 0xE2:
+            continue  # invoke-polymorphic/custom, const-method-*: outside the clause (no handler today: IndexError -> nop)
         if only_ops is not None and op not in only_ops:
             continue
         name, fmt, kind, flow = dalvik.OPCODES[op]
@@ -639,6 +639,9 @@ def core(repo, sink, only_ops=None):
         sink.count("signatures")
         for s, r, ev, chain in sigs:
             ok = same_sig(s, exp)
+            if not ok and _has_unknown(s) and same_sig(_wild(s, exp), exp):
+                raise AnalysisError("%s builds `%s` for opcode 0x%02x (%s): an operand expression outside the analysable fragment"
+                                    % (handler.qualname, render(s), op, name))
             cond = " and ".join("%s is %s" % (show(t), c) for t, c in ev.conds)
             via = " -> ".join(_cname(fn) for fn in chain if fn.name not in ("get_variables",) and not _is_leaf(fn))
             sink.check("signature", inst + (" [%s]" % cond if cond else ""), ok, handler,
@@ -648,11 +651,12 @@ def core(repo, sink, only_ops=None):
                        node=handler.node, detail="%s == %s" % (render(s), render(exp)))
             for fn in chain:
                 if not _is_leaf(fn):
-                    u = users.setdefault(fn.module.relpath + ":" + fn.qualname, [fn, 0, 0, []])
-                    u[1] += 1
+                    u = users.setdefault(fn.module.relpath + ":" + fn.qualname, [fn, set(), [], 0])
+                    u[1].add(op)
                     if not ok:
-                        u[2] += 1
-                        u[3].append("0x%02x %s" % (op, name))
+                        u[2].append("0x%02x %s" % (op, name))
+                    elif s == exp:
+                        u[3] += 1   # agrees literally (not merely up to commutation / mirroring)
             et = java_ops.TYPE.get(op)
             if et is not None:
                 sink.count("type_letters")
@@ -665,14 +669,39 @@ def core(repo, sink, only_ops=None):
                            "opcode 0x%02x (%s) computes a value of Dalvik type %r; %s tags the expression with %s"
                            % (op, name, et, handler.qualname, show(gt)), node=handler.node,
                            detail="type letter %s" % show(gt))
-    # a shared builder / IR class / Writer method through which *every* signature is wrong is itself the broken construct
-    for key, (fn, n, bad, which) in sorted(users.items()):
-        if n >= 2:
-            sink.check("component", _cname(fn), bad < n, fn, _cname(fn),
-                       "every one of the %d opcode translations that go through %s is wrong (%s%s): the defect is in %s"
-                       % (n, _cname(fn), ", ".join(which[:4]), ", ..." if len(which) > 4 else "", _cname(fn)),
-                       node=fn.node, detail="%d/%d signatures through %s agree with the specification" % (n - bad, n, _cname(fn)))
+    # a shared builder / IR class / Writer method through which no translation comes out literally right and at
+    # least two come out wrong is itself (or something all its users share is) the broken construct
+    flagged = {k: u for k, u in users.items() if len(u[2]) >= 2 and u[3] == 0}
+    for key, (fn, ops, which, exact) in sorted(users.items()):
+        if len(ops) < 2:
+            continue
+        bad = key in flagged and not any(k2 != key and flagged[k2][1] > ops for k2 in flagged)
+        if key in flagged and not bad:
+            continue
+        sink.check("component", _cname(fn), not bad, fn, _cname(fn),
+                   "%d of the %d opcode translations that go through %s are wrong and none is literally right (%s%s): "
+                   "%s, or a construct all of them share, is broken"
+                   % (len(which), len(ops), _cname(fn), ", ".join(which[:4]), ", ..." if len(which) > 4 else "", _cname(fn)),
+                   node=fn.node, detail="%d/%d signatures through %s agree with the specification" % (len(ops) - len(which), len(ops), _cname(fn)))
     return he
+
+
+def _wild(got, exp):
+    """`got` with every operand the evaluator could not express replaced by what the specification expects there"""
+    if isinstance(got, tuple) and got:
+        if got[0] == "?" or (got[0] in ("value", "lit", "reg") and len(got) == 2 and isinstance(got[1], tuple) and got[1] and got[1][0] == "?"):
+            return exp
+        if isinstance(exp, tuple) and len(exp) == len(got):
+            return tuple(_wild(g, e) for g, e in zip(got, exp))
+    return got
+
+
+def _has_unknown(sig):
+    if isinstance(sig, tuple):
+        if sig and sig[0] == "?":
+            return True
+        return any(_has_unknown(x) for x in sig)
+    return False
 
 
 def _cname(fn):
